@@ -23,6 +23,7 @@ func getWithVar(doc *Document, docs []*Document, ec *EvalContext, m any) (any, e
 }
 
 func get(doc *Document, docs []*Document, m any) (any, error) {
+	verifStep(verifSiteGet)
 	switch m2 := m.(type) {
 	case string:
 		return getPathFromString(doc.Data, docs, m2)
